@@ -10,7 +10,7 @@ use ring::signature::KeyPair;
 use serde::{Deserialize, Serialize};
 
 pub const ECDSA_POOL: usize = 3;
-pub const RSA_POOL: &[&str] = &["rsa2048-0", "rsa2048-1", "rsa3072-0", "rsa4096-0"];
+pub const RSA_POOL: &[&str] = &["rsa2048-0", "rsa2048-1", "rsa3072-0", "rsa4096-0", "rsa2048-bigexp"];
 
 #[derive(Clone, Debug, PartialEq, Eq, Hash, PartialOrd, Ord, Serialize, Deserialize)]
 pub enum KeySpec {
